@@ -198,6 +198,11 @@ func (w *l2world) close() {
 			c.db.Close()
 		}
 	}
+	// the tables' S3 clients keep idle connections to the proxy alive: over a thousand worlds they
+	// exhaust the process's file descriptors
+	if t, ok := http.DefaultTransport.(*http.Transport); ok {
+		t.CloseIdleConnections()
+	}
 }
 
 func (w *l2world) colDecl() string {
@@ -538,6 +543,9 @@ func (w *l2world) exec1(op *sop, stats map[string]int) bool {
 		_, err := c.db.Exec(fmt.Sprintf("create virtual table %s using s3db (\ns3_bucket='%s',\ns3_endpoint='%s',\ns3_prefix='%s',\n%scolumns='%s')",
 			c.table, w.bucket, w.px.url, w.prefix, opts, w.colDecl()))
 		w.lastFailed = err != nil
+		if err != nil && os.Getenv("VERIF_TRACE") != "" {
+			fmt.Fprintf(os.Stderr, "create error: %v\n", err)
+		}
 		out.s(";")
 		out.s(classifyErr(err))
 		var mo tw
